@@ -31,10 +31,29 @@ _buf_ids = itertools.count(1)
 _inv_counter = itertools.count()
 
 
+def _memo(fn):
+    """element functions are nested closures (a write wraps the previous contents); without a cache the same
+    index is re-evaluated once per nesting level and branch -- exponential in the number of writes"""
+    cache = {}
+
+    def wrapped(idx):
+        key = tuple(i if isinstance(i, int) else (i.e.get_id() if hasattr(i, "e") else (i.get_id() if z3.is_expr(i) else id(i))) for i in idx)
+        hit = cache.get(key)
+        if hit is not None:
+            return hit[1]
+        r = fn(idx)
+        if len(cache) > 4096:
+            cache.clear()
+        cache[key] = (idx, r)  # keep the index terms alive: z3 recycles ids of freed terms
+        return r
+
+    return wrapped
+
+
 class Buffer:
     def __init__(self, shape, fn, kind="real", origin="fresh"):
         self.shape = tuple(shape)
-        self.fn = fn  # tuple(index terms) -> z3 expr of sort kind
+        self.fn = _memo(fn)  # tuple(index terms) -> z3 expr of sort kind
         self.kind = kind
         self.version = 0
         self.id = next(_buf_ids)
